@@ -2,11 +2,13 @@
 Driver ops of C17.
 
   plughist     history of register / find / enumerate calls  → results of the model and of the one-table reference
-  openmatrix   a world (which opens fail, isfile, kpsewhich, environ) + one call of open_raw / open_unicode
-               → events and outcome
-  entrypoints  one reader / writer entry point of a class wired as (unicode_io, overridden methods), with the
+               (for `enumerate`: the SET of names the one table holds under the group)
+  openmatrix   a world (which opens fail or which files exist, isfile, what running the kpsewhich program gives,
+               environ) + one call of open_raw / open_unicode → events and outcome; path arguments are `str`
+               (JSON string) or `bytes` (`{"bytes": hex}`)
+  entrypoints  reader / writer entry points of a class wired as (unicode_io, overridden methods), with the
                codec given as a finite table by the harness (computed with the real codecs) → what the plug-in's
-               core is handed / what is returned or written
+               core is handed / what is returned or written; `parse_files` over any list of base names
   pathfn       os.path.splitext / posixpath.join
 -/
 import PybtexModel.Drv.Json
@@ -53,6 +55,16 @@ def getOptStr (j : Json) (k : String) : Except String (Option Str) :=
   | .ok .null => pure none
   | .ok v => do pure (some (← jsonToStr v))
   | .error _ => pure none
+
+/-- a `str` path travels as a JSON string, a `bytes` path as `{"bytes": hex}` -/
+def pathArgJ : PathArg → Json
+  | .str p => strToJson p
+  | .bytes b => obj [("bytes", bytesToJson b)]
+
+def parsePathArg (j : Json) : Except String PathArg :=
+  match j with
+  | .str _ => do pure (.str (← jsonToStr j))
+  | _ => do pure (.bytes (← getBytes j "bytes"))
 
 def streamJ : Stream → Json
   | .text s => obj [("kind", Json.str "text"), ("data", strToJson s)]
@@ -112,11 +124,15 @@ def specFindD (T : Spec.Plugins.Table) (group : Str) (name : NameArg) (filename 
                              (Spec.Plugins.findSuffix T group (splitext (c :: f)).2)
         | _ => opt (.notFound group dflt) (Spec.Plugins.load T group dflt)
 
-def runHist (R : Registry) (T : Spec.Plugins.Table) : List HOp → List Json × List Json
+/-- `cands`: every name some registration of the history mentions.  The reference answer to
+`enumerate_plugin_names(g)` is the SET of names the one table holds under the group `g` itself. -/
+def runHist (cands : List Str) (R : Registry) (T : Spec.Plugins.Table) : List HOp → List Json × List Json
   | [] => ([], [])
   | .enumerate g :: ops =>
-    let rest := runHist R T ops
-    (obj [("names", strs (enumeratePluginNames Gen.installedPlugins R g))] :: rest.1, Json.null :: rest.2)
+    let rest := runHist cands R T ops
+    let specNames := ((cands ++ installedNames Gen.installedPlugins g).eraseDups).filter fun n => (T g n).isSome
+    (obj [("names", strs (enumeratePluginNames Gen.installedPlugins R g))] :: rest.1,
+      obj [("nameset", strs specNames)] :: rest.2)
   | .plug op :: ops =>
     let r := plugStep Gen.installedPlugins Gen.defaultPlugins R op
     let s : Spec.Plugins.Table × Json := match op with
@@ -132,46 +148,62 @@ def runHist (R : Registry) (T : Spec.Plugins.Table) : List HOp → List Json × 
         match specFindD T g n f with
         | .ok k => (T, obj [("cls", strToJson k)])
         | .error e => (T, plugErrJ e)
-    let rest := runHist r.1 s.1 ops
+    let rest := runHist cands r.1 s.1 ops
     (plugResJ r.2 :: rest.1, s.2 :: rest.2)
 
 def plughist (j : Json) : Except String Json := do
   let ops ← (← getArr j "ops").mapM parseHOp
-  let r := runHist [] (installedLookup Gen.installedPlugins) ops
+  let cands := ops.filterMap fun o => match o with | .plug (.register _ n _ _) => some n | _ => none
+  let r := runHist cands [] (installedLookup Gen.installedPlugins) ops
   pure (obj [("out", arr r.1), ("spec", arr r.2)])
 
 /-! ### openmatrix -/
 
 def eventJ : Event → Json
   | .locate p => obj [("ev", Json.str "locate"), ("path", strToJson p)]
-  | .tryOpen p m e => obj [("ev", Json.str "open"), ("path", strToJson p), ("mode", strToJson m), ("encoding", optJ strToJson e)]
+  | .tryOpen p m e => obj [("ev", Json.str "open"), ("path", pathArgJ p), ("mode", strToJson m), ("encoding", optJ strToJson e)]
 
 def parsePairs (l : List Json) : Except String (List (Str × Str)) :=
   l.mapM fun p => do
     let a ← p.getArr?
     pure (← jsonToStr a[0]!, ← jsonToStr a[1]!)
 
-/-- the world of one request: a handle is the path that was opened -/
-def parseWorld (w : Json) : Except String (Env Path) := do
+/-- the world of one request: a handle is the path (argument) that was opened.
+`fail`: `[path argument, strerror]` pairs; `only` (optional): the path arguments that exist; `locate`: what running the `kpsewhich` program gives —
+`{"kind":"proc","rc":…,"stdout":hex}` or `{"kind":"error","strerror":…}` (it cannot be started). -/
+def parseWorld (w : Json) : Except String (Env PathArg) := do
   let isfile ← getStrList w "isfile"
-  let fail ← parsePairs (← getArr w "fail")
+  let fail ← (← getArr w "fail").mapM fun p => do
+    let a ← p.getArr?
+    pure (← parsePathArg a[0]!, ← jsonToStr a[1]!)
   let environ ← parsePairs (← getArr w "environ")
+  -- optional `only`: the path arguments that exist; every other one fails with ENOENT (real file system families)
+  let only : Option (List PathArg) ← match w.getObjVal? "only" with
+    | .ok (.arr a) => do pure (some (← a.toList.mapM parsePathArg))
+    | _ => pure none
   let loc ← w.getObjVal? "locate"
   let lk ← (← loc.getObjVal? "kind").getStr?
-  let locate : Path → Except IOErr (Option Path) ←
+  let run : Path → Except IOErr (Int × Bytes) ←
     match lk with
-    | "none" => pure (fun _ => .ok none)
-    | "found" => do let q ← getStr loc "path"; pure (fun _ => .ok (some q))
+    | "proc" => do
+      let rc ← getInt loc "rc"
+      let out ← getBytes loc "stdout"
+      pure (fun _ => .ok (rc, out))
     | "error" => do let m ← getStr loc "strerror"; pure (fun _ => .error ⟨m⟩)
     | _ => throw s!"unknown locate kind {lk}"
-  pure { opener := fun p _ _ => match dget fail p with | some m => .error ⟨m⟩ | none => .ok p
+  pure { opener := fun p _ _ => match fail.find? (fun f => f.1 == p) with
+           | some f => .error ⟨f.2⟩
+           | none =>
+             match only with
+             | some l => if l.contains p then .ok p else .error ⟨"No such file or directory".toList⟩
+             | none => .ok p
          isFile := fun p => isfile.contains p
-         locate := locate
+         runKpsewhich := run
          environ := environ }
 
-def openedJ : Except OpenErr (Opened Path Unit) → Json
+def openedJ : Except OpenErr (Opened PathArg Unit) → Json
   | .ok (.passthrough _) => obj [("ok", Json.str "passthrough")]
-  | .ok (.handle h) => obj [("ok", obj [("handle", strToJson h)])]
+  | .ok (.handle h) => obj [("ok", obj [("handle", pathArgJ h)])]
   | .error e => obj [("err", obj [("kind", Json.str "PybtexError"), ("filename", strToJson e.filename),
                                    ("message", strToJson e.message)])]
 
@@ -201,13 +233,9 @@ def parseCodec (l : List Json) : Except String Codec := do
            | none => .error "undecodable".toList }
 
 /-- a reader core that records what it is handed -/
-def recReader : ReaderCore (List (String × Stream)) Unit (String × Stream) where
+def recReader : ReaderCore (List (String × Stream)) Unit where
   parseStream := fun d st => .ok (d ++ [("parse_stream", st)])
   parseText := fun d s => .ok (d ++ [("parse_string", .text s)])
-  fromBytes := fun b => .ok ("ET.bytes", .binary b)
-  fromStr := fun s => .ok ("ET.str", .text s)
-  fromTextStream := fun s => .ok ("ET.textstream", .text s)
-  parseTree := fun d t => .ok (d ++ [t])
 
 def recJ (l : List (String × Stream)) : Json :=
   arr (l.map fun r => obj [("core", Json.str r.1), ("got", streamJ r.2)])
@@ -225,7 +253,7 @@ def werrJ : WErr Unit → Json
   | .core _ => obj [("err", Json.str "core")]
 
 /-- the bytes behind a handle (= the path that was opened) -/
-def epContent (files : List (Str × Bytes)) (h : Path) : Bytes :=
+def epContent (files : List (PathArg × Bytes)) (h : PathArg) : Bytes :=
   match files.find? (fun f => f.1 == h) with
   | some f => f.2
   | none => []
@@ -233,7 +261,7 @@ def epContent (files : List (Str × Bytes)) (h : Path) : Bytes :=
 def epReply (events : List Event) (result : Json) : Json :=
   obj [("events", arr (events.map eventJ)), ("result", result)]
 
-def readEntry (k : ReaderKind) (c : Codec) (encName : Str) (env : Env Path) (files : List (Str × Bytes))
+def readEntry (k : ReaderKind) (c : Codec) (encName : Str) (env : Env PathArg) (files : List (PathArg × Bytes))
     (s : Str) (b : Bytes) (j : Json) : Except String Json := do
   let entry ← (← j.getObjVal? "entry").getStr?
   -- a stream of the kind the class asks for, holding the document
@@ -252,14 +280,15 @@ def readEntry (k : ReaderKind) (c : Codec) (encName : Str) (env : Env Path) (fil
     | _ => throw s!"unknown reader entry {entry}"
   pure (epReply res.1 (match res.2 with | .ok l => recJ l | .error e => rerrJ e))
 
-def writeEntry (k : WriterKind) (c utf8 : Codec) (encName : Str) (env : Env Path) (text : Str)
+def writeEntry (k : WriterKind) (c utf8 : Codec) (encName : Str) (env : Env PathArg) (text : Str) (wrote : Bool)
     (j : Json) : Except String Json := do
   let entry ← (← j.getObjVal? "entry").getStr?
+  -- `wrote`: did the real `write_stream` call `stream.write` at all (observed by the harness)?
   let core : WriterCore Unit Unit :=
-    { writeText := fun _ => .ok text, writeBytes := fun _ => .ok (c.enc text), xmlBody := fun _ => .ok text }
-  let writtenJ (r : List Event × Except (WErr Unit) (Written Path Unit)) : Json :=
+    { writeText := fun _ => .ok (if wrote then [text] else []), writeBytes := fun _ => .ok (c.enc text), xmlBody := fun _ => .ok text }
+  let writtenJ (r : List Event × Except (WErr Unit) (Written PathArg Unit)) : Json :=
     epReply r.1 (match r.2 with
-      | .ok (.file h b) => obj [("file", strToJson h), ("bytes", bytesToJson b)]
+      | .ok (.file h b) => obj [("file", pathArgJ h), ("bytes", bytesToJson b)]
       | .ok (.stream _ p) => obj [("stream", streamJ p)]
       | .error e => werrJ e)
   match entry with
@@ -282,7 +311,7 @@ def entrypoints (j : Json) : Except String Json := do
   let encName ← getStr j "enc"
   let files ← (← getArr j "files").mapM fun p => do
     let a ← p.getArr?
-    pure ((← jsonToStr a[0]!), (← jsonToBytes a[1]!))
+    pure ((← parsePathArg a[0]!), (← jsonToBytes a[1]!))
   let env ← parseWorld (← j.getObjVal? "world")
   let entries ← getArr j "entries"
   if side == "read" then
@@ -297,7 +326,8 @@ def entrypoints (j : Json) : Except String Json := do
     | none => pure (obj [("out", Json.str "unknown-wiring")])
     | some k =>
       let text ← getStr j "text"
-      pure (obj [("out", arr (← entries.mapM (writeEntry k c utf8 encName env text)))])
+      let wrote := match getBool j "wrote" with | .ok b => b | .error _ => !text.isEmpty
+      pure (obj [("out", arr (← entries.mapM (writeEntry k c utf8 encName env text wrote)))])
 
 /-! ### pathfn -/
 
